@@ -52,3 +52,22 @@ type I3 interface {
 	M0()
 	M1()
 }
+
+// Named slice types (two families) for value-group parameters and results: a group may be declared
+// under any slice type whose element type is the group's.
+type SV0 []V0
+type SV1 []V1
+type SV2 []V2
+type SV3 []V3
+type SV4 []V4
+type SV5 []V5
+type SV6 []V6
+type SV7 []V7
+type TV0 []V0
+type TV1 []V1
+type TV2 []V2
+type TV3 []V3
+type TV4 []V4
+type TV5 []V5
+type TV6 []V6
+type TV7 []V7
